@@ -26,4 +26,16 @@ CHECKS = {
   "design_ref": "DESIGN.md section 3 C07",
   "note": "Trusted: cgstatic's extractor and model circuit; networkx add_node/add_edges_from/update semantics; implicit exceptions (KeyError on a missing node in set_output) are outside the ordering rule; callers editing c.graph directly are out of scope.",
  },
+ "C01": {
+  "technique": "static: sat.py's encoder evaluated by the checker's own AST evaluator over model objects (recording CNF, injective IDPool, scripted solver) + exhaustive truth-table oracle; no import, no solver",
+  "text": "For every supported gate type and fan-in arity 1..K (K=4 quick, 6 thorough) and for multi-gate model circuits (shared parity fan-in, constants, blackbox pins, single-input demotion, adversarial names) the clauses cnf() emits are compared by exhaustive enumeration with the gate relation, including unique extension of auxiliary variables; auxiliary keys can never equal a node name; every node variable occurs; assumption polarity, the non-node guard, formula hand-over and solve()'s model read-back are decided against PySAT's documented contract.",
+  "design_ref": "DESIGN.md section 3 C01",
+  "note": "Trusted: cgstatic's evaluator and model classes (IDPool/CNF/Solver contracts are frozen facts since python-sat is not installed); the external solver; arities above K are covered only by the arity-generic shape of the emission code.",
+ },
+ "C08": {
+  "technique": "static: sat.model_count / approx_model_count / props.signal_probability evaluated by the checker's AST evaluator with a scripted solver and fake file/process objects; DIMACS text parsed and enumerated",
+  "text": "Blocking clauses are the negated model literals on exactly the startpoints (inputs and blackbox outputs) and the count is the number of models produced; signal_probability counts the reflexive fan-in cone under {n: True} and normalises by that sub-circuit's own startpoints; the default-mode DIMACS text declares the startpoints as sampling set, has a consistent header, equals cnf(c) plus assumption units and has the expected projected model count on model circuits (exhaustive enumeration).",
+  "design_ref": "DESIGN.md section 3 C08",
+  "note": "Trusted: cgstatic's evaluator; PySAT/approxmc interface conventions; exactness on a real solver follows from C01 plus the blocking-clause rule and is argued, not mechanised; use_xor_clauses mode not covered.",
+ },
 }
